@@ -13,6 +13,8 @@ Strings are comma separated code points, `-` = empty string / absent.
   srv reset | srv add <srv> <a> <args> | srv remove <srv> <a> | srv removeserver <srv> | srv removeall
       | srv run <srv> 0|1
   not reset | not register <lst> <a> | not oneshot <lst> <a> | not unregister <lst> | not notify
+  nc reset | nc register|oneshot <obj> <msg> <lst> <a> | nc unregister <obj> <msg|-> <lst|-> | nc exists <obj> <msg> <lst>
+      | nc notify <obj> <msg> | nc clear
 -/
 import Sc3Verif.C18.Spec
 open Sc3Verif.C18
@@ -176,6 +178,7 @@ structure DState where
   scripts : List (Nat × List SysOp) := []
   srv : SrvReg := []
   nt : NotReg := []
+  nc : NotCenter := []
 
 def fmtRuns (l : List (Nat × Nat)) : String := " ".intercalate (l.map fun p => s!"{p.1}({p.2})")
 
@@ -229,6 +232,37 @@ def handle (ds : DState) (line : String) : DState × String :=
       match s.toNat? with
       | some s => (ds, "run " ++ fmtRuns (srvRun ds.srv s (d == "1")))
       | none => (ds, "bad-op")
+    | _ => (ds, "bad-op")
+  | "nc" :: rest =>
+    let opt (x : String) : Option (Option Nat) := if x == "-" then some none else x.toNat?.map some
+    match rest with
+    | ["reset"] => ({ ds with nc := [] }, "reset")
+    | ["register", o, m, l, a] =>
+      match o.toNat?, m.toNat?, l.toNat?, a.toNat? with
+      | some o, some m, some l, some a => ({ ds with nc := ncRegister ds.nc o m l a false }, "ok")
+      | _, _, _, _ => (ds, "bad-op")
+    | ["oneshot", o, m, l, a] =>
+      match o.toNat?, m.toNat?, l.toNat?, a.toNat? with
+      | some o, some m, some l, some a => ({ ds with nc := ncRegister ds.nc o m l a true }, "ok")
+      | _, _, _, _ => (ds, "bad-op")
+    | ["unregister", o, m, l] =>
+      match o.toNat?, opt m, opt l with
+      | some o, some m, some l =>
+        match ncUnregister ds.nc o m l with
+        | some c => ({ ds with nc := c }, "ok")
+        | none => (ds, "err KeyError")
+      | _, _, _ => (ds, "bad-op")
+    | ["exists", o, m, l] =>
+      match o.toNat?, m.toNat?, l.toNat? with
+      | some o, some m, some l => (ds, if ncExists ds.nc o m l then "True" else "False")
+      | _, _, _ => (ds, "bad-op")
+    | ["notify", o, m] =>
+      match o.toNat?, m.toNat? with
+      | some o, some m =>
+        let (c, l) := ncNotify ds.nc o m
+        ({ ds with nc := c }, "notify " ++ " ".intercalate (l.map fun p => s!"{p.1}:{p.2}"))
+      | _, _ => (ds, "bad-op")
+    | ["clear"] => ({ ds with nc := [] }, "ok")
     | _ => (ds, "bad-op")
   | "not" :: rest =>
     match rest with
